@@ -1124,6 +1124,18 @@ func checkExitPathCompletesClose(c *core.Ctx) {
 						if call, ok := x.(*ast.CallExpr); ok {
 							if f := core.Callee(info, call); f != nil && f.Name() == "FailIfClosed" {
 								r = true
+							} else if f != nil && f.Pkg() == p.Types {
+								// a helper of the package doing it (one level)
+								if hd := declOf(p, f); hd != nil && hd != fd {
+									ast.Inspect(hd.Body, func(y ast.Node) bool {
+										if hc, ok := y.(*ast.CallExpr); ok {
+											if g := core.Callee(info, hc); g != nil && g.Name() == "FailIfClosed" {
+												r = true
+											}
+										}
+										return true
+									})
+								}
 							}
 						}
 						return true
